@@ -608,6 +608,8 @@ def _run_once(sc: dict, with_block: bool, post_ops: List[str], wrappers: bool, p
     """pre ops, (block), post ops; every op is followed by one simulation timestep."""
     from primaite.simulator.network.hardware.base import Link
     from primaite.simulator.network.hardware.nodes.network.router import AccessControlList, Router
+    from primaite.simulator.network.hardware.nodes.network.switch import Switch
+    from primaite.simulator.network.protocols.arp import ARPPacket
     from primaite.simulator.system.core.session_manager import SessionManager
     sim, N, info = build(sc)
     t = {"n": 0}
@@ -656,7 +658,78 @@ def _run_once(sc: dict, with_block: bool, post_ops: List[str], wrappers: bool, p
     closure = {"ok": 0, "bad": []}
     prot_origin: Dict[int, Any] = {}
 
+    # -- validation of the attacker-side MODELS of Props/C06Net.lean on the implementation (every run, every frame)
+    sw_in: Dict[str, list] = {}
+    model_bad: List[str] = []
+    model_ok = {"switch": 0, "arp": 0, "stamp": 0}
+    rtr_macs = {}
+    for n in N.values():
+        if isinstance(n, Router):
+            for ni in n.network_interface.values():
+                rtr_macs[ni.mac_address] = ni.ip_address
+
+    def snap(frame):
+        # the TTL is left out: one Frame object is shared by all recipients of a flood and each receiving interface decrements it
+        return (frame.ethernet.src_mac_addr, frame.ethernet.dst_mac_addr, str(frame.ip.src_ip_address), str(frame.ip.dst_ip_address),
+                str(frame.ip.protocol), None if frame.tcp is None else (frame.tcp.src_port, frame.tcp.dst_port),
+                None if frame.udp is None else (frame.udp.src_port, frame.udp.dst_port), id(frame.payload))
+
+    real_swrx = Switch.receive_frame
+
+    def swrx(self, frame, from_network_interface):
+        # delivery is synchronous and re-entrant: a stack per switch, the frame being handled is on top
+        st = sw_in.setdefault(self.config.hostname, [])
+        st.append((id(frame), snap(frame)))
+        try:
+            return real_swrx(self, frame, from_network_interface)
+        finally:
+            st.pop()
+
+    created: Dict[int, Any] = {}
+
+    def check_models(sender_nic, frame):
+        node = sender_nic._connected_node
+        h = node.config.hostname
+        if isinstance(node, Switch):
+            # switchStd: a switch sends THE frame it received, unchanged
+            st = sw_in.get(h)
+            got = st[-1] if st else None
+            if got is None or got[0] != id(frame) or got[1] != snap(frame):
+                model_bad.append(f"{h}: switch sent a frame that is not the unchanged frame it received")
+            else:
+                model_ok["switch"] += 1
+            return
+        first = id(frame) not in created
+        if first:
+            created[id(frame)] = frame
+        if isinstance(frame.payload, ARPPacket):
+            # ArpWf: a request is a broadcast whose sender is the emitting interface (hence in its subnet); a reply addressed to a
+            # router interface's MAC is addressed to that interface's address
+            a = frame.payload
+            ok = frame.udp is not None and int(frame.udp.dst_port) == 219
+            if a.request:
+                ok = ok and frame.ethernet.dst_mac_addr == "ff:ff:ff:ff:ff:ff"
+                if first:
+                    ok = ok and a.sender_ip_address == sender_nic.ip_address and a.sender_mac_addr == sender_nic.mac_address \
+                        and frame.ethernet.src_mac_addr == sender_nic.mac_address
+            else:
+                m = frame.ethernet.dst_mac_addr
+                ok = ok and (m not in rtr_macs or rtr_macs[m] == frame.ip.dst_ip_address)
+            if ok:
+                model_ok["arp"] += 1
+            else:
+                model_bad.append(f"{h}: ARP {'request' if a.request else 'reply'} {a.sender_ip_address}->{a.target_ip_address} is not "
+                                 f"well-formed (dst {frame.ethernet.dst_mac_addr}/{frame.ip.dst_ip_address})")
+        if first and not isinstance(node, Router):
+            # hostStamp: a frame a host creates carries the outbound interface's own MAC and address as source
+            if frame.ethernet.src_mac_addr == sender_nic.mac_address and frame.ip.src_ip_address == sender_nic.ip_address:
+                model_ok["stamp"] += 1
+            else:
+                model_bad.append(f"{h}: created a frame with source {frame.ethernet.src_mac_addr}/{frame.ip.src_ip_address}, interface is "
+                                 f"{sender_nic.mac_address}/{sender_nic.ip_address}")
+
     def tx(self, sender_nic, frame):
+        check_models(sender_nic, frame)
         if to_prot["on"] and sender_nic._connected_node.config.hostname in barrier:
             rx = self.endpoint_b if self.endpoint_a is sender_nic else self.endpoint_a
             if rx is not None and rx._connected_node is not None and rx._connected_node.config.hostname in prot:
@@ -698,6 +771,7 @@ def _run_once(sc: dict, with_block: bool, post_ops: List[str], wrappers: bool, p
             es.enter_context(mock.patch.object(Link, "transmit_frame", tx))
             es.enter_context(mock.patch.object(SessionManager, "receive_frame", srx))
             es.enter_context(mock.patch.object(Router, "process_frame", proc))
+            es.enter_context(mock.patch.object(Switch, "receive_frame", swrx))
         tick()
         for op in sc["pre_ops"]:
             guarded(op)
@@ -711,7 +785,7 @@ def _run_once(sc: dict, with_block: bool, post_ops: List[str], wrappers: bool, p
             guarded(op)
         tick()
     return {"obs": {h: node_obs(N[h]) for h in prot}, "at_block": at_block, "topo": topo, "to_prot": to_prot["n"], "log": log, "errors": errors,
-            "frame_viol": frame_viol, "closure": closure}
+            "frame_viol": frame_viol, "closure": closure, "model_ok": model_ok, "model_bad": model_bad[:3]}
 
 
 def _first_diff(a: Any, b: Any, path: str = "") -> Optional[str]:
@@ -748,7 +822,9 @@ def run_scenario(sc: dict, control: bool = True) -> dict:
     for v in sorted(set(attack["frame_viol"])):
         violations.append({"kind": "denied-frame-not-inert", "what": v})
     res = {"violations": violations, "log": attack["log"], "errors": attack["errors"], "nontrivial": None, "protected": prot,
-           "topo": attack["topo"], "closure": attack["closure"], "topo_ctl": []}
+           "topo": attack["topo"], "closure": attack["closure"], "topo_ctl": [],
+           "model_ok": {k: attack["model_ok"][k] + idle["model_ok"][k] for k in attack["model_ok"]},
+           "model_bad": attack["model_bad"] + idle["model_bad"]}
     if control:
         sc2 = dict(sc, missing_links=[], _want_topo=True)
         ctl = _run_once(sc2, False, sc["post_ops"], False, prot)
@@ -807,7 +883,7 @@ def run(ctx: Ctx):
     for _, _, res in results:
         all_lines += res["topo"] + res["topo_ctl"]
     answers = run_driver("drv_c06", all_lines)
-    pos, cert_bad, certc_bad, ctl_bad, closure_bad, certn_bad = 0, [], [], [], [], []
+    pos, cert_bad, certc_bad, ctl_bad, closure_bad, certn_bad, model_bad_all = 0, [], [], [], [], [], []
     for name, sc, res in results:
         chunk = answers[pos:pos + len(res["topo"])]
         pos += len(res["topo"])
@@ -844,6 +920,10 @@ def run(ctx: Ctx):
                                f"{chunk_ctl[-1]})")
             ctx.count("net:unblocked-network-rejected" if not acc else "net:unblocked-network-ACCEPTED")
         ctx.count("net:class-closure-frames-checked", res["closure"]["ok"] + len(res["closure"]["bad"]))
+        for k, v in res["model_ok"].items():
+            ctx.count(f"net:model-validated:{k}-frames", v)
+        if res["model_bad"]:
+            model_bad_all.append(f"{name} {sc['family']}/{sc['block']}: {res['model_bad'][0]}")
         if res["closure"]["bad"]:
             closure_bad.append(f"{name} {sc['family']}/{sc['block']}: {res['closure']['bad'][0]}")
     ctx.oblige("rig:R-net the proved cut certificate accepts the real post-block network", "correspondence", not cert_bad,
@@ -856,6 +936,10 @@ def run(ctx: Ctx):
                "; ".join(ctl_bad[:5]))
     ctx.oblige("rig:R-net every frame put on a wire by an attacker-side node after the block is in the scenario's frame class "
                "(closure hypothesis of C06_certifiedC_unchanged)", "correspondence", not closure_bad, "; ".join(closure_bad[:5]))
+    ctx.oblige("rig:R-net the attacker-side models of C06Net hold on every transmitted frame (a switch sends the unchanged frame it "
+               "received; a frame a host creates carries the outbound interface's own MAC and address; ARP requests are broadcasts "
+               "with the emitting interface as sender, ARP replies to a router interface's MAC are for its address)", "correspondence",
+               not model_bad_all, "; ".join(model_bad_all[:5]))
     for name, sc, res in results:
         ctx.cov["traces_validated_against_impl"] += 1
         ctx.case(sc, bool(res["nontrivial"]))
